@@ -550,7 +550,9 @@ class SCFG(Sized):
                             jt.pop(jt.index(s))
             else:
                 jt.append(new_name)
-            self.add_block(block.replace_jump_targets(jump_targets=tuple(jt)))
+            new_block = block.replace_jump_targets(jump_targets=tuple(jt))
+            self.add_block(new_block)
+            self._sync_exiting(new_block)
 
     def insert_SyntheticExit(
         self,
@@ -657,11 +659,11 @@ class SCFG(Sized):
                 # replace previous successor with synth_assign
                 jt[jt.index(s)] = synth_assign
             # finally, replace the jump_targets
-            self.add_block(
-                self.graph.pop(name).replace_jump_targets(
-                    jump_targets=tuple(jt)
-                )
+            replaced = self.graph.pop(name).replace_jump_targets(
+                jump_targets=tuple(jt)
             )
+            self.add_block(replaced)
+            self._sync_exiting(replaced)
         # initialize new block, which will hold the branching table
         new_block = SyntheticHead(
             name=new_name,
@@ -672,6 +674,29 @@ class SCFG(Sized):
         )
         # add block to self
         self.add_block(new_block)
+
+    @staticmethod
+    def _sync_exiting(block: BasicBlock) -> None:
+        """Propagate the jump targets of a region block to its exiting block.
+
+        A region block mirrors the outgoing jump targets of its exiting
+        block. When a region is re-targeted, the exiting block (and, if that
+        is a region too, its exiting block, recursively) must be re-targeted
+        position by position, keeping declared backedges in place.
+        """
+        while isinstance(block, RegionBlock):
+            assert block.subregion is not None
+            assert block.exiting is not None
+            inner = block.subregion.graph.pop(block.exiting)
+            fresh = iter(block.jump_targets)
+            inner = inner.replace_jump_targets(
+                jump_targets=tuple(
+                    t if t in inner.backedges else next(fresh)
+                    for t in inner._jump_targets
+                )
+            )
+            block.subregion.add_block(inner)
+            block = inner
 
     def join_returns(self) -> None:
         """Close the CFG.
